@@ -80,5 +80,12 @@ def selftest(ctx, specdir, module, cfg, records, mutate, name="oracle-selftest",
             f.write(json.dumps(r) + "\n")
     total, bad, _ = judge_file(ctx, specdir, module, cfg, path, name, extra_files=extra_files, deps=deps)
     if sorted(bad) != sorted(corrupted):
-        raise Inconclusive("oracle self-test failed: corrupted records %s, rejected %s" % (corrupted, bad))
+        # records that are rejected even uncorrupted (the tree under test has a real problem) are not the self-test's business
+        base = os.path.join(ctx.sub(name + "-base"), "base.ndjson")
+        with open(base, "w") as f:
+            for r in records:
+                f.write(json.dumps(r) + "\n")
+        _, bad0, _ = judge_file(ctx, specdir, module, cfg, base, name + "-base", extra_files=extra_files, deps=deps)
+        if sorted(set(bad) - set(bad0)) != sorted(set(corrupted) - set(bad0)) or not (set(corrupted) <= set(bad)):
+            raise Inconclusive("oracle self-test failed: corrupted records %s, rejected %s (rejected uncorrupted: %s)" % (corrupted, bad, bad0))
     return {"records": total, "corrupted": len(corrupted), "rejected_exactly_those": True}
